@@ -50,6 +50,13 @@ Definition prod_eqb {A B : Type} (ea : A -> A -> bool) (eb : B -> B -> bool) (x 
 
 Definition unit_eqb (_ _ : unit) : bool := true.
 
+Fixpoint list_eqb {A : Type} (eqb : A -> A -> bool) (a b : list A) : bool :=
+  match a, b with
+  | [], [] => true
+  | x :: a', y :: b' => eqb x y && list_eqb eqb a' b'
+  | _, _ => false
+  end.
+
 Lemma option_eqb_spec {A} (eqb : A -> A -> bool) :
   (forall x y, reflect (x = y) (eqb x y)) -> forall a b, reflect (a = b) (option_eqb eqb a b).
 Proof.
@@ -79,6 +86,14 @@ Lemma prod_eqb_spec {A B} (ea : A -> A -> bool) (eb : B -> B -> bool) :
 Proof.
   intros H1 H2 [a1 a2] [b1 b2]; unfold prod_eqb; simpl.
   destruct (H1 a1 b1), (H2 a2 b2); simpl; constructor; congruence.
+Qed.
+
+Lemma list_eqb_spec {A} (eqb : A -> A -> bool) :
+  (forall x y, reflect (x = y) (eqb x y)) -> forall a b, reflect (a = b) (list_eqb eqb a b).
+Proof.
+  intros H a. induction a as [|x a IH]; intros [|y b]; simpl; try (constructor; congruence).
+  destruct (H x y); simpl; [|constructor; congruence].
+  destruct (IH b); constructor; congruence.
 Qed.
 
 Lemma unit_eqb_spec : forall a b : unit, reflect (a = b) (unit_eqb a b).
